@@ -371,7 +371,9 @@ def decMany (f : Fmt) : Nat → List Nat → Option (List Val × List Nat) := de
     * scalars, opaque blocks, `byte`/`flag` hex fields: overwritten;
     * `sticky` hex fields: set when the input says 1, otherwise left as they were;
     * `slice`/`block`: if the receiver has at least as many elements they are reused as
-      receivers of the elements, otherwise new elements (capacity is identified with length);
+      receivers of the elements, otherwise new elements (capacity is identified with length, and
+      distinct slices of a receiver are assumed not to share memory: the probes `rows_disjoint`
+      and `library_receiver` check both on what the library's constructors allocate);
     * `map`: entries decoded into fresh values, the receiver's entries are dropped;
       `mapKeep`: the receiver's entries that are not overwritten stay;
     * `opt keep reuse`: absent ⇒ the receiver's field is kept iff `keep`; present ⇒ decoded
